@@ -193,6 +193,46 @@ Definition desc_of_layout (L : Layout) (involved : list string) (refocus : bool)
 Definition layout_named (name : string) : option Layout :=
   find (fun L => String.eqb (layout_name L) name) shipped_layouts.
 
+(* ------------------------------------------------------------------ the chains inside the shipped layouts
+   chain order (data, ancilla, data, ...) of each repetition layout, written out; `chain_valid` checks a chain against
+   the generated layout table: data and ancillas alternate, every ancilla's parity group is its two chain neighbours,
+   every ancilla of the layout occurs.  `sub_chains` = every contiguous data-to-data sub-chain with >= 2 data qubits. *)
+Open Scope string_scope.
+Definition layout_chains : list (string * list string) := [
+  ("Repetition9Code", ["D1"; "X1"; "D2"; "X2"; "D3"; "Z2"; "D6"; "Z4"; "D5"; "Z1"; "D4"; "Z3"; "D7"; "X3"; "D8"; "X4"; "D9"]);
+  ("Repetition9Round6Code", ["D1"; "X1"; "D2"; "X2"; "D3"; "Z2"; "D6"; "Z4"; "D5"; "Z1"; "D4"; "Z3"; "D7"; "X3"; "D8"; "X4"; "D9"]);
+  ("Repetition5Round4Code", ["D3"; "Z2"; "D6"; "Z4"; "D5"; "Z1"; "D4"; "X3"; "D7"])
+].
+Close Scope string_scope.
+
+Definition chain_of (name : string) : list string :=
+  match find (fun p => String.eqb (fst p) name) layout_chains with Some p => snd p | None => [] end.
+
+Definition strs_eqb : list string -> list string -> bool := leqb String.eqb.
+
+Definition chain_valid (L : Layout) (ch : list string) : bool :=
+  let n := List.length ch in
+  Nat.odd n
+  && forallb (fun i => let q := nth i ch ""%string in
+                       if Nat.even i then qmem q (data_qubit_ids L)
+                       else qmem q (ancilla_qubit_ids L)
+                            && match group_of L q with
+                               | Some g => let l := nth (i - 1) ch ""%string in let r := nth (i + 1) ch ""%string in
+                                           strs_eqb (pg_data g) [l; r] || strs_eqb (pg_data g) [r; l]
+                               | None => false
+                               end) (seq 0 n)
+  && forallb (fun a => qmem a ch) (ancilla_qubit_ids L).
+
+Definition sub_chains (ch : list string) : list (list string) :=
+  let n := List.length ch in
+  flat_map (fun a => flat_map (fun k => let len := (2 * k + 3)%nat in
+                                        if (2 * a + len <=? n)%nat then [firstn len (skipn (2 * a) ch)] else [])
+                              (seq 0 n))
+           (seq 0 n).
+
+Definition all_layout_subchains : list (Layout * list string) :=
+  flat_map (fun L => map (fun c => (L, c)) (sub_chains (chain_of (layout_name L)))) shipped_layouts.
+
 (* ------------------------------------------------------------------ boolean equality of descriptions (for the tie) *)
 Definition pair_eqb (a b : Z * Z) : bool := (fst a =? fst b) && (snd a =? snd b).
 Definition rdesc_eqb (a b : rdesc) : bool :=
